@@ -64,7 +64,7 @@ def run_scenarios(ctx: Ctx, scs, res: Result, sigs, extra=None, at_quiescence='c
         res.count('messages_on_wire', n_msgs)
         res.count('ops', len(sc['ops']))
         for (sig, what, step) in r.violations:
-            if sig in sigs or sig == 'component-raised':
+            if sig in sigs or sig in ('component-raised', 'lock-left-held'):
                 res.violations.append(Violation(sig, what + f" (step {step})", {**sc, 'failing_step': step}))
                 break
         runners.append(r)
